@@ -332,7 +332,8 @@ class Inliner:
                     # arguments may themselves contain helper calls
                     b = {k: self._expr(copy.deepcopy(v), owner, depth, stack) for k, v in b.items()}
                     prelude, body, k = _prepare(hnode, b)
-                    ex = as_expr(body) if not isinstance(s, ast.Expr) else None
+                    branching = any(isinstance(x, ast.If) for st_ in body for x in ast.walk(st_))
+                    ex = as_expr(body) if not isinstance(s, ast.Expr) and not branching else None     # branches stay statements: rules read CFG edges
                     if ex is not None and not prelude:
                         s2 = copy.copy(s)
                         s2.value = ex
